@@ -16,7 +16,7 @@ def ident_fields(ident, k):
     """Identity class -> the seven identity attributes; I2 differs from I1 in attribute k only."""
     f = {"subvariant": "Server", "type": "dvd", "format": "iso", "arch": "x86_64", "disc_number": 1,
          "unified": False, "additional_variants": []}
-    if k == 6:
+    if k in (6, 7, 8):
         f["unified"] = True
         f["additional_variants"] = ["Alpha"]
     if ident == "I2":
@@ -34,6 +34,9 @@ def ident_fields(ident, k):
             f["unified"] = True
         elif k == 6:
             f["additional_variants"] = ["Beta"]
+        elif k in (7, 8):
+            # the list of the second image ALSO names one of the variants of the model (it may be filed under that very variant)
+            f["additional_variants"] = [{7: "S", 8: "C"}[k], "Alpha"]
     return f
 
 
@@ -121,7 +124,13 @@ def replay_history(case):
                     finally:
                         imgs[ev["img"]].arch = own
                 else:
+                    ident0 = json.dumps([getattr(imgs[ev["img"]], a_) for a_ in IDENT_ATTRS])
                     m.add(ev["v"], ev["a"], imgs[ev["img"]])
+                    if json.dumps([getattr(imgs[ev["img"]], a_) for a_ in IDENT_ATTRS]) != ident0:
+                        fails.append("step %d: add(%s, %s, %s) changed the identifying attributes of the image it was given: %s -> %s (hist=%s, k=%d)"
+                                     % (step, ev["v"], ev["a"], ev["img"], ident0, json.dumps([getattr(imgs[ev["img"]], a_) for a_ in IDENT_ATTRS]),
+                                        _short(case["hist"]), k))
+                        return fails
             elif ev["op"] == "setversion":
                 m.header.version = VERSTR[ev["ver"]]
             elif ev["op"] == "edit":
@@ -152,6 +161,13 @@ def replay_history(case):
             out = "ValueError"
         except Exception as exc:
             out = type(exc).__name__
+        if out == "ValueError" and ev["op"] == "load" and ev["out"] == "ValueError" and case.get("focus", "C09") == "C09" and (k + s + step) % 3 == 0:
+            # the same refused document met through productmd.compose.Compose, next to a well-formed manifest under the other
+            # file name: whichever name the library prefers, it never answers a refused images.json with the other file's content
+            bad = _via_compose(doc_text(norm_cells(ev["doc"]), ev["ver"], k, s), k, s)
+            if bad:
+                fails.append("step %d load: %s (hist=%s, k=%d)" % (step, bad, _short(case["hist"]), k))
+                return fails
         after = project(m)
         if out != ev["out"]:
             fails.append("step %d %s: model outcome %s, code outcome %s (hist=%s, k=%d)"
@@ -224,6 +240,50 @@ def replay_history(case):
         except Exception as exc:
             fails.append("manifest cannot be written back: %s: %s (hist=%s)" % (type(exc).__name__, exc, _short(case["hist"])))
     return fails
+
+
+def _via_compose(refused_text, k, s):
+    import os
+    import shutil
+    import tempfile
+    import productmd.compose
+    d = tempfile.mkdtemp(prefix="verif-c09c-")
+    try:
+        md = os.path.join(d, "compose", "metadata")
+        os.makedirs(md)
+        from . import c20
+        with open(os.path.join(md, "composeinfo.json"), "w") as fh:
+            fh.write(c20.doc("info", 1))
+        good = doc_text({"S/x86_64": ["i1a"]}, 102, k, s)
+        out = []
+        for refused_name, other in (("images.json", "image-manifest.json"), ("image-manifest.json", "images.json")):
+            for fn in (refused_name, other):
+                p = os.path.join(md, fn)
+                if os.path.exists(p):
+                    os.unlink(p)
+            with open(os.path.join(md, refused_name), "w") as fh:
+                fh.write(refused_text)
+            # alone: must be refused
+            try:
+                productmd.compose.Compose(d).images
+                return "Compose(path).images returned a manifest for a %s that Images.loads() refuses" % refused_name
+            except RuntimeError:
+                pass
+            except Exception as exc:
+                return "Compose(path).images raised %s instead of RuntimeError for a refused %s" % (type(exc).__name__, refused_name)
+            with open(os.path.join(md, other), "w") as fh:
+                fh.write(good)
+            try:
+                productmd.compose.Compose(d).images
+                out.append(refused_name)
+            except RuntimeError:
+                pass
+        if len(out) == 2:
+            return ("Compose(path).images answers a refused manifest with the content of the file under the other name, whichever "
+                    "of the two names the refused document has")
+        return None
+    finally:
+        shutil.rmtree(d, ignore_errors=True)
 
 
 def _short(hist):
